@@ -27,6 +27,9 @@ pub struct Profile3 {
     pub drain: bool,
     /// share of runs in which one step receives a large batch (hundreds to thousands of instructions)
     pub big_batch: f64,
+    /// share of runs with hundreds to thousands of (mostly idle or tiny) steps: recorded histories, counters and
+    /// anything else that accumulates per step
+    pub long_run: f64,
 }
 
 pub fn profile3(prop: &str) -> Profile3 {
@@ -45,13 +48,14 @@ pub fn profile3(prop: &str) -> Profile3 {
         max_batch: 12,
         drain: true,
         big_batch: 0.0,
+        long_run: 0.0,
     };
     match prop {
-        "C08" => Profile3 { big_batch: 0.004, ..base },
-        "C10" => Profile3 { monitors: INVISIBLE, toggle: 0.08, start_halted: 0.1, big_batch: 0.006, ..base },
-        "C11" => Profile3 { monitors: RECORDS, asym: true, toggle: 0.02, big_batch: 0.004, ..base },
+        "C08" => Profile3 { big_batch: 0.004, long_run: 0.001, ..base },
+        "C10" => Profile3 { monitors: INVISIBLE, toggle: 0.08, start_halted: 0.1, big_batch: 0.006, long_run: 0.002, ..base },
+        "C11" => Profile3 { monitors: RECORDS, asym: true, toggle: 0.02, big_batch: 0.004, long_run: 0.004, ..base },
         // per-asset environment-level queries too: cached level-2 snapshot and recorded histories of every asset
-        "C14" => Profile3 { monitors: BELIEF | SHADOW | RECORDS | INVISIBLE, force_market: true, market_share: 1.0, asym: true, big_batch: 0.003, ..base },
+        "C14" => Profile3 { monitors: BELIEF | SHADOW | RECORDS | INVISIBLE, force_market: true, market_share: 1.0, asym: true, big_batch: 0.003, long_run: 0.002, ..base },
         "C05" => Profile3 { monitors: BELIEF | TIE_CLASSIFY, overflow: true, always_steer: true, market_share: 0.25, toggle: 0.0, start_halted: 0.0, max_steps: 12, ..base },
         "C12" => Profile3 { monitors: GRID | INVISIBLE, offgrid: 0.25, drain: false, ..base },
         "C13" => Profile3 { monitors: BELIEF | HALT, toggle: 0.35, start_halted: 0.4, ..base },
@@ -411,7 +415,15 @@ pub fn generate(prop: &str, seed: u64) -> W3Scn {
         allow_overflow: p.overflow,
     };
     let ms: Vec<Model> = (0..assets).map(|a| Model::new(t0, cfg.ticks[a], trading0, Tie::Fifo)).collect();
-    let n_steps = if r.chance(0.75) { r.range(1, 8) } else { r.range(9, p.max_steps) };
+    let long = !p.overflow && big.is_none() && p.long_run > 0.0 && r.chance(p.long_run);
+    let n_steps = if long {
+        let base = *r.pick(&[256u64, 512, 1024, 1024, 2048]);
+        base - 2 + r.below(5)
+    } else if r.chance(0.75) {
+        r.range(1, 8)
+    } else {
+        r.range(9, p.max_steps)
+    };
     let gen_rng = SeamRng::passthrough(cfg.rng_seed);
     let mut g = Gen3 { r: &mut r, p: &p, cfg: cfg.clone(), alph, ms, n_orders: vec![0; assets], pending: vec![], ops: vec![], gen_rng, vol_kind, max_pending: 64 };
     let mut trading = trading0;
@@ -435,6 +447,12 @@ pub fn generate(prop: &str, seed: u64) -> W3Scn {
         let is_big = big_step == Some(step_i);
         let nb = if is_big {
             big.unwrap_or(0)
+        } else if long {
+            (match g.r.below(20) {
+                0..=11 => 0,
+                12..=17 => g.r.range(1, 2),
+                _ => g.r.range(3, 6),
+            }) as usize
         } else {
             (match g.r.below(20) {
                 0 => 0,
